@@ -420,9 +420,10 @@ def is_click_command(fi):
     return False
 
 
-def check_commands(ctx):
+def check_commands(ctx, only=None):
     rep, m = ctx.rep, ctx.model
-    cmds = [f for f in m.functions.values() if f.module.name.startswith('gambit.cli.') and f.cls is None and is_click_command(f)]
+    cmds = [f for f in m.functions.values() if f.module.name.startswith('gambit.cli.') and f.cls is None and is_click_command(f)
+            and (only is None or f.qualname in only)]
     analysed = 0
     total_paths = total_sinks = 0
     for fi in sorted(cmds, key=lambda f: f.qualname):
@@ -479,10 +480,10 @@ def check_commands(ctx):
         bad_out = [(u(c.func), st.mismatch) for (c, st) in it.outputs if st.mismatch is not None]
         if it.outputs:
             rep.add('P4', fi.site(), 'no output call is reachable on a path that saw differing parameters', not bad_out, expected='none', found=bad_out[:3] or 'ok', stmt='outputs after mismatch', construct=fi.qualname)
-    rep.floor('P1', 'signature-handling commands analysed', analysed, 5)
+    rep.floor('P1', 'signature-handling commands analysed', analysed, 5 if only is None else len(only))
     rep.info['abstract_paths_total'] = total_paths
     rep.info['sink_evaluations_total'] = total_sinks
-    rep.floor('P1', 'sink evaluations', total_sinks, 10)
+    rep.floor('P1', 'sink evaluations', total_sinks, 10 if only is None else 1)
 
 
 def check_summaries(ctx):
